@@ -73,7 +73,7 @@ def run(case):
                 return "agent %d handled same-step events in order %r" % (aid, plain)
     return None
 
-case = {'n': 2, 'rounds': 2, 'agents': 1, 'ops': [(1, 'send', 'd0', 0, 0.5)]}
+case = {'n': 1, 'rounds': 3, 'agents': 2, 'ops': [(3, 'send', 'p4', 1, None), (3, 'send', 'p5', 1, None)]}
 bad = run(case)
 print("script:", case)
 print("FAIL: " + bad if bad else "PASS")
